@@ -8,6 +8,7 @@ from scipy.spatial.distance import cdist
 from sklearn.metrics.pairwise import euclidean_distances
 from sklearn.utils.extmath import row_norms
 from ._kmeans_022 import _centers_dense, _centers_sparse, _labels_inertia_skl
+from .. import _verif
 
 
 def linearize_matrix(mat, *adds):
@@ -365,6 +366,8 @@ def _switch_clusters(labels, distances):
                 if d11**2 + d22**2 > d21**2 + d12**2:
                     labels[i], labels[j] = c2, c1
                     modif += 1
+                    if _verif.ENABLED:
+                        _verif.emit("switch", i=int(i), j=int(j), ci=int(c2), cj=int(c1))
 
 
 def _constraint_association_distance(
@@ -415,6 +418,14 @@ def _constraint_association_distance(
     distances0 = distances.copy()
     maxi = distances.ravel().max() * 2
     centers_index = numpy.argsort(distances, axis=1)
+    if _verif.ENABLED:
+        _verif.emit(
+            "distance_begin",
+            n=int(X.shape[0]),
+            k=int(centers.shape[0]),
+            limit=int(limit),
+            leftover=int(leftover),
+        )
 
     while labels.min() == -1:
         mini = numpy.min(distances, axis=1)
@@ -422,6 +433,8 @@ def _constraint_association_distance(
         _randomize_index(sorted_index, mini)
 
         nover = leftover
+        if _verif.ENABLED:
+            _verif.emit("pass", nover=int(nover))
         for ind in sorted_index:
             if labels[ind] >= 0:
                 continue
@@ -431,6 +444,10 @@ def _constraint_association_distance(
                     counters[c] += 1
                     labels[ind] = c
                     distances[ind, c] = maxi
+                    if _verif.ENABLED:
+                        _verif.emit(
+                            "assign_quota", p=int(ind), c=int(c), cnt=int(counters[c])
+                        )
                     break
                 if nover > 0 and leftclose[c] == -1:
                     # The cluster may accept one point if the number
@@ -440,9 +457,25 @@ def _constraint_association_distance(
                     nover -= 1
                     leftclose[c] = 0
                     distances[ind, c] = maxi
+                    if _verif.ENABLED:
+                        _verif.emit(
+                            "assign_extra",
+                            p=int(ind),
+                            c=int(c),
+                            cnt=int(counters[c]),
+                            nover=int(nover),
+                        )
                     break
 
+    if _verif.ENABLED:
+        _verif.emit("assigned", labels=[int(_) for _ in labels])
     _switch_clusters(labels, distances0)
+    if _verif.ENABLED:
+        _verif.emit(
+            "end",
+            labels=[int(_) for _ in labels],
+            counters=[int(_) for _ in counters],
+        )
     distances_close[:] = distances[numpy.arange(X.shape[0]), labels]
     return distances0
 
@@ -532,6 +565,16 @@ def _constraint_association_gain(
                 break
             sumi = loopf(h, sumi)
 
+    if _verif.ENABLED:
+        _verif.emit(
+            "gain_begin",
+            n=int(X.shape[0]),
+            k=int(centers.shape[0]),
+            ave=int(ave),
+            labels=[int(_) for _ in labels],
+            counters=[int(_) for _ in counters],
+            leftclose=[int(_) for _ in leftclose],
+        )
     transfer = {}
 
     for i in range(0, sorted_distances.shape[0]):
@@ -550,6 +593,8 @@ def _constraint_association_gain(
             counters[cur] -= 1
             counters[dest] += 1
             distances_close[ind] = 1  # moved
+            if _verif.ENABLED:
+                _verif.emit("move", p=int(ind), cur=int(cur), dest=int(dest))
         else:
             cp = transfer.get((dest, cur), [])
             while len(cp) > 0:
@@ -567,6 +612,10 @@ def _constraint_association_gain(
                     add = False
                     distances_close[ind] = 1  # moved
                     distances_close[destind] = 1  # moved
+                    if _verif.ENABLED:
+                        _verif.emit(
+                            "xswap", p=int(ind), q=int(destind), cur=int(cur), dest=int(dest)
+                        )
                 else:
                     add = True
             else:
@@ -577,11 +626,21 @@ def _constraint_association_gain(
                     transfer[cur, dest] = []
                 gain = sorted_distances[i, 3]
                 bisect.insort(transfer[cur, dest], (gain, ind))
+                if _verif.ENABLED:
+                    _verif.emit("enqueue", p=int(ind), cur=int(cur), dest=int(dest))
 
+    if _verif.ENABLED:
+        _verif.emit("assigned", labels=[int(_) for _ in labels])
     neg = (counters < ave).sum()
     assert neg <= 0, f"The algorithm failed, counters={counters}"
 
     _switch_clusters(labels, distances)
+    if _verif.ENABLED:
+        _verif.emit(
+            "end",
+            labels=[int(_) for _ in labels],
+            counters=[int(_) for _ in counters],
+        )
     distances_close[:] = distances[numpy.arange(X.shape[0]), labels]
 
     return distances
